@@ -44,7 +44,7 @@ def as_list(res):
     return res if isinstance(res, list) else [res]
 
 
-def h_history(T, P, length, nmenu):
+def h_history(T, P, length, nmenu, with_clim=False):
     def fn(S):
         data = load.modules["verif.data"]
         MI = common.input_class()
@@ -53,7 +53,8 @@ def h_history(T, P, length, nmenu):
         base = {}
         for nm in ("A", "B"):
             base[nm] = {f: S.array("%s.%s" % (nm, f), shape) for f in ("obs", "fcst", "extra")}
-        use_range = S.choose("obsrange", 2)
+        clim_type = [None, "subtract"][S.choose("clim", 2)] if with_clim else None
+        use_range = S.choose("obsrange", 2) if clim_type is None else 0
         obs_range = None
         if use_range:
             lo, hi = S.real("lo"), S.real("hi")
@@ -69,8 +70,14 @@ def h_history(T, P, length, nmenu):
                 ins.append(MI(nm + ".txt", common.int_array(S, times), S.vector([0.0]),
                               common.locations(list(range(1, P + 1))),
                               obs=arrs["obs"], fcst=arrs["fcst"], others={"extra": arrs["extra"]}))
+            if clim_type is not None:
+                xarr = clim_base.copy()
+                X = MI("X.txt", common.int_array(S, times), S.vector([0.0]), common.locations(list(range(1, P + 1))),
+                       obs=xarr.copy(), fcst=xarr, others={"extra": xarr.copy()})
+                return data.Data(ins, clim=X, clim_type=clim_type), kept
             return data.Data(ins, obs_range=obs_range), kept
 
+        clim_base = S.array("X.fcst", shape, nan=False) if clim_type is not None else None
         D, kept = build()
         m = menu(P, nmenu)
         seq = [S.choose("req%d" % i, len(m)) for i in range(length)]
@@ -117,5 +124,7 @@ def harnesses(tier):
         return [
             Harness("history.len2", h_history(2, 2, 2, 10), "all sequences of 2 requests over the 10-request menu"),
             Harness("history.len3", h_history(2, 1, 3, 10), "all sequences of 3 requests, one location"),
+            Harness("history.clim", h_history(2, 2, 2, 10, with_clim=True), "sequences of 2 requests with a climatology"),
         ]
-    return [Harness("history.len2", h_history(2, 2, 2, 6), "all sequences of 2 requests over a 6-request menu")]
+    return [Harness("history.len2", h_history(2, 2, 2, 6), "all sequences of 2 requests over a 6-request menu"),
+            Harness("history.clim", h_history(1, 2, 2, 6, with_clim=True), "the same with a climatology (anomalies), 1 time x 2 locations")]
